@@ -826,9 +826,10 @@ func c08Table(r *rand.Rand, tier string) []c08Scenario {
 		{"empty-old", c08PreFile{Kind: "empty", MtimeAge: c08ms(30000)}},
 		{"empty-just-modified", c08PreFile{Kind: "empty"}},
 		{"whitespace-old", c08PreFile{Kind: "ws", MtimeAge: c08ms(11500)}},
-		{"truncated-json", c08PreFile{Kind: "truncated"}},
-		{"garbage", c08PreFile{Kind: "garbage"}},
-		{"directory-at-lock-path", c08PreFile{Kind: "dir"}},
+		{"truncated-json", c08PreFile{Kind: "truncated", MtimeAge: c08ms(25000)}},
+		{"garbage", c08PreFile{Kind: "garbage", MtimeAge: c08ms(12000)}},
+		{"garbage-just-modified", c08PreFile{Kind: "garbage"}},
+		{"directory-at-lock-path", c08PreFile{Kind: "dir", MtimeAge: c08ms(40000)}},
 	}
 	var out []c08Scenario
 	add := func(name string, p c08PreFile, c ctxk) {
@@ -838,6 +839,15 @@ func c08Table(r *rand.Rand, tier string) []c08Scenario {
 	for _, p := range pres {
 		for _, c := range ctxs {
 			add(p.name, p.p, c)
+		}
+	}
+	// the lock files of dead holders again with a context that lives longer than the recovery bound: a
+	// Lock that returns an error or still waits when the file has long been stale fails the recovery clause
+	for _, p := range pres {
+		switch p.name {
+		case "updated-10.15s", "zero-updated-old-created", "no-times", "empty-old", "whitespace-old", "truncated-json", "garbage", "directory-at-lock-path":
+			out = append(out, c08Scenario{Name: "table/" + p.name + "/deadline7000", Class: "decision-table", Pre: p.p,
+				Threads: []c08Thread{{Tid: 0, Pid: 0, Name: "Lock Name+1", StartAt: c08ms(20), HoldFor: -1, CancelAt: c08ms(7000)}}, Horizon: c08ms(7400)})
 		}
 	}
 	// shorter deadlines for the files that make Lock wait
